@@ -190,9 +190,10 @@ pub fn run_c03(tier: Tier) -> Report {
 
     // ---- S-types: every assignment of 7 macroblock kinds (6 + IntraQ via code 6) to the macroblocks
     let mut cases = vec![];
-    let mut grids: Vec<(u16, u16)> = vec![(32, 32), (16, 16), (48, 16), (16, 48), (20, 12)];
+    // (grids with an odd or short last row/column: every kind lands on a clipped macroblock)
+    let mut grids: Vec<(u16, u16)> = vec![(32, 32), (16, 16), (48, 16), (16, 48), (20, 12), (17, 19), (31, 17), (9, 23)];
     if tier.thorough() {
-        grids.extend([(48, 32), (17, 33)]);
+        grids.extend([(48, 32), (17, 33), (33, 31), (47, 1), (1, 35)]);
     }
     for &(w, h) in &grids {
         let (mbw, mbh) = mb_grid(w, h);
